@@ -180,3 +180,18 @@ func (ex *Exec) resetPath(prefix []decision) {
 	ex.path = &Path{prefix: prefix, known: map[int]bool{}, ndSet: map[string]bool{}, reached: map[string]bool{}}
 	ex.sol.Reset()
 }
+
+var loadedCache = map[string]*Loaded{}
+
+// LoadCached loads each build configuration once per process (always from /repo's current working tree).
+func LoadCached(tags string) (*Loaded, error) {
+	if ld, ok := loadedCache[tags]; ok {
+		return ld, nil
+	}
+	ld, err := Load(tags)
+	if err != nil {
+		return nil, err
+	}
+	loadedCache[tags] = ld
+	return ld, nil
+}
